@@ -73,7 +73,7 @@ def scan(source: str, callback: callable):
         return callback(token_type, start, end, delimiter) is False
 
     while not scanner.eof():
-        if comment(scanner) or whitespace(scanner):
+        if comment(scanner) or line_comment(scanner, state) or whitespace(scanner):
             continue
 
         scanner.start = scanner.pos
@@ -196,6 +196,21 @@ def comment(scanner: Scanner):
         return True
     else:
         scanner.pos = start
+
+    return False
+
+
+def line_comment(scanner: Scanner, state: ScanState):
+    """
+    Consumes line comment of SCSS, LESS and Stylus: `// ...` up to the end of line.
+    Not inside parentheses: `url(//example.com/a.png)`
+    """
+    if not state.expression and scanner.peek() == Chars.Slash and \
+        scanner.pos + 1 < scanner.end and scanner.string[scanner.pos + 1] == Chars.Slash:
+        scanner.start = scanner.pos
+        while not scanner.eof() and scanner.peek() not in (Chars.LF, Chars.CR):
+            scanner.pos += 1
+        return True
 
     return False
 
